@@ -16,7 +16,7 @@ def summarize(r):
 def run(tier, seed):
     ctx = core.Ctx("C19", tier, seed, LEVEL)
     nproc = 3 if tier == "quick" else 8
-    srcs = streams.exploration_sources(ctx, tier, seed, caps={"soup": 6000, "arms": 10000, "c15": 8000, "soup_t": 100000, "arms_t": 100000, "c15_t": 50000}, which=("soup", "arms", "c15", "flat", "c08", "repo"))
+    srcs = streams.exploration_sources(ctx, tier, seed, caps={"soup": 6000, "arms": 10000, "c15": 8000, "soup_t": 100000, "arms_t": 100000, "c15_t": 50000}, which=("soup", "arms", "c15", "flat", "c08", "c11", "repo"))
     # case twins: the same multi-fault inputs with counterpart names that differ only in letter case (Dto / DTO / dto), so that diagnostics
     # which name a type are equal up to case -- any ordering of the diagnostics that is not a total order on the exact text shows here
     import re
